@@ -22,7 +22,9 @@ const (
 	protocolOfflineID                  = "cmp/presign-offline"
 	protocolOnlineID                   = "cmp/presign-online"
 	protocolFullID                     = "cmp/presign-full"
-	protocolOfflineRounds round.Number = 7
+	// the offline presign ends after round 7, but its identifiable-abort round for an inconsistent
+	// chi (abort2) broadcasts as round 8: the handler must admit and queue round-8 messages
+	protocolOfflineRounds round.Number = 8
 	protocolFullRounds    round.Number = 8
 )
 
